@@ -325,6 +325,7 @@ CHECKS = {
     },
     "C07": {
         "level": "exploration",
+        "tools": ["peer"],
         "manifest": {
             "technique": "stateful property-based testing with a harness-owned schedule: a real SQLite connection in another process is moved through its lock states by generated moves (BEGIN / IMMEDIATE / EXCLUSIVE, small write, cache-spilling write, cursors of a second connection, COMMIT that may be blocked and park the writer in PENDING, ROLLBACK) and parked; after each move a generated sqlittle read runs; the lock state observed with F_GETLK decides the expected outcome and a model of the writer cross-checks the observation",
             "level_text": "Generated move/read sequences over all lock states a SQLite connection can be parked in (UNLOCKED, SHARED, RESERVED with and without journal, PENDING after a blocked commit, EXCLUSIVE with and without spilled uncommitted pages); oracle: PENDING/EXCLUSIVE observed => error and zero rows; otherwise success with exactly the rows of the last successful COMMIT. The writer is parked while the reader runs, so outcomes do not depend on timing. Sampled over sequences.",
@@ -334,7 +335,7 @@ CHECKS = {
                  "held PENDING or EXCLUSIVE, or RESERVED with a journal on disk. Distinct = fingerprint of the spec."),
         "assumptions": ["system libsqlite3 (3.40.1) unix VFS with POSIX advisory locks is the writer"],
         "min_nontrivial": {"quick": 150, "thorough": 3000},
-        "required_classes": ["state:UNLOCKED", "state:SHARED", "state:RESERVED", "state:RESERVED+journal", "state:PENDING", "state:EXCLUSIVE", "state:EXCLUSIVE+journal+spilled", "sync-off=true", "sync-off=false", "state:PENDING+commit-blocked-by-our-own-handle"],
+        "required_classes": ["state:UNLOCKED", "state:SHARED", "state:RESERVED", "state:RESERVED+journal", "state:PENDING", "state:EXCLUSIVE", "state:EXCLUSIVE+journal+spilled", "sync-off=true", "sync-off=false", "state:PENDING+commit-blocked-by-our-own-handle", "state:shared-range-write-locked-without-pending"],
         "timeout": {"quick": 400, "thorough": 2400},
         "jobs": [
             job("states", "c07", ["TestC07LockStates"], 250, 5000, 3, 10),
